@@ -40,7 +40,7 @@ def shard(shard, nshards, n, tier, seed):
             return o
 
         nreal = max(1, int(n * 0.8))
-        drive(strategies.forms(PROFILE), evaluate, nreal, (PROP, seed, shard, "real"), res)
+        drive(strategies.forms(dict(PROFILE, int_base_pow=True)), evaluate, nreal, (PROP, seed, shard, "real"), res)
         drive(strategies.form_specs(dict(PROFILE, complex=True)), evaluate_complex, max(1, n - nreal), (PROP, seed, shard, "cplx"), res)
     return res
 
